@@ -73,14 +73,14 @@ def _run(ctx, ncases, nsteps):
       return traj
 
     if sleep and sparse:
-      # recorded defect (C38/C11): the sleep-enabled (compacted) solve with a sparse Jacobian reads uninitialised scratch and is not
-      # even deterministic for ONE world; batch independence cannot be observed there
+      # regression (repaired defect c4777c0): the sleep-enabled (compacted) solve over a sparse model read an uninitialised
+      # qfrc_constraint buffer and was not even deterministic for ONE world
       r1, r2 = run([0]), run([0])
       acc.evals += 2
       if not all(np.array_equal(a[0], b[0], equal_nan=False) for a, b in zip(r1, r2)):
-        acc.find("world 0 alone, twice, identical inputs: different (or NaN) trajectories with sleeping enabled and a sparse Jacobian", "solver (compact, sparse)",
-                 "sparse-sleep-nondeterminism", xml=xml)
-        acc.hit("sparse-sleep-nondeterministic-skipped")
+        acc.find("world 0 alone, twice, identical inputs: different (or NaN) trajectories with sleeping enabled and a sparse Jacobian", "forward.step",
+                 "nondeterministic-baseline", xml=xml)
+        acc.hit("nondeterministic-baseline")
         continue
     batch = run(list(range(nworld)))
     perm = list(rng.permutation(nworld))
